@@ -39,8 +39,6 @@ EXHAUSTIVE = {'quick': False, 'thorough': False}
 CASE_TIMEOUT = 60
 SOURCES = ['parser.py', 'core/interfaces.py']
 OWN = ('ParserError', 'SymbolError', 'IndentationError')
-SIG19 = 'C03|exogenous-otherwise|variable-lost-to-function'
-SIG19_CONFLICT = 'C03|conflict-accepted|masked-by-function-call'
 
 OPT_VALUES = [None, 0, 1, 2, 3]
 
@@ -64,7 +62,7 @@ def canon_eq(eq):
 
 def expectation(ast):
     """What the property demands of the script: {'reject': set of admissible classes} | {'accept': ..lists.., 'lags', 'leads'};
-    plus 'fn_clash' (a name used as function and otherwise: the property does not say whether such a script is accepted)."""
+    a name called as a function and also used as variable / parameter / error counts as a conflict (SymbolError)."""
     ms = bc.ast_mentions(ast)
     roles = {}
     order = []
@@ -83,10 +81,10 @@ def expectation(ast):
             kinds.add('p')
         if 'e' in rs:
             kinds.add('e')
+        if 'f' in rs:
+            kinds.add('f')                   # called as a function: a class of its own (b45daa1: a clash with any other use)
         if len(kinds) > 1:
             conflict = True
-        if 'f' in rs and kinds:
-            fn_clash.add(name)
     defs = {}
     double = False
     for eq in ast:
@@ -356,17 +354,12 @@ def oracle_one(case, o):
     if 'parse_exc' in o:
         cls = o['parse_exc']
         if exp is not None:
-            if 'accept' in exp and not exp['fn_clash'] and not exp.get('same_twice'):
+            if 'accept' in exp and not exp.get('same_twice'):
                 out.append(_f('accepted-script', cls, 'a script without conflicts is rejected with %s' % cls))
-            elif 'reject' in exp and cls not in exp['reject'] and not (exp['fn_clash'] and cls == 'SymbolError') \
-                    and not (exp.get('same_twice') and cls == 'ParserError'):
+            elif 'reject' in exp and cls not in exp['reject'] and not (exp.get('same_twice') and cls == 'ParserError'):
                 out.append(_f('rejection-class', cls, 'conflict rejected with %s instead of %s' % (cls, '/'.join(exp['reject']))))
         return out
     # ---- accepted
-    if exp is not None and 'reject' in exp and exp['fn_clash'] and 'SymbolError' in exp['reject']:
-        # finding #19 again: the conflicting mentions were overwritten by FUNCTION symbols of the same name
-        out.append({'sig': SIG19_CONFLICT, 'what': 'a name used in two classes is accepted because it is also called as a function (%s)' % exp['fn_clash'][0]})
-        return out
     if exp is not None and 'reject' in exp:
         out.append(_f('conflict-accepted', '+'.join(exp['reject']),
                       'a script with a name used in two classes / an endogenous variable with two different equations is accepted'))
@@ -381,7 +374,7 @@ def oracle_one(case, o):
         out.append(_f('build', o['def_exc'], 'build_model_definition raised %s on an accepted script' % o['def_exc']))
         return out
     if 'exec_exc' in o:
-        if exp is not None and 'accept' in exp and not exp['fn_clash']:
+        if exp is not None and 'accept' in exp:
             out.append(_f('build', o['exec_exc'], 'build_model raised %s on a well-formed script' % o['exec_exc']))
         return out
     # the four classes partition NAMES in that order, each name once
@@ -400,10 +393,7 @@ def oracle_one(case, o):
             out.append(_f('leads', 'symbols', 'LEADS = %r, the symbols and options give %r' % (o['leads'], ld)))
     if exp is not None and 'accept' in exp:
         acc = exp['accept']
-        lost = [x for x in exp['fn_clash'] if x not in o['names']]
-        if lost:
-            out.append({'sig': SIG19, 'what': 'variable %s is also called as a function and is lost from the variable lists' % lost[0]})
-        else:
+        if True:
             for key, cl in (('endo', 'endogenous-iff-assigned'), ('exo', 'exogenous-otherwise'), ('par', 'parameter-iff-braces'), ('err', 'error-iff-angle')):
                 if o[key] != acc[key]:
                     kind = 'order' if sorted(o[key]) == sorted(acc[key]) else 'membership'
@@ -420,7 +410,7 @@ def oracle_one(case, o):
     # default range = the periods at which every equation reads inside the span
     lg, ld = o['lags'], o['leads']
     if 'inst_exc' in o:
-        if exp is not None and 'accept' in exp and not exp['fn_clash']:
+        if exp is not None and 'accept' in exp:
             out.append(_f('instantiate', o['inst_exc'], 'the built class cannot be instantiated'))
         return out
     if isinstance(lg, int) and isinstance(ld, int) and lg >= 0 and ld >= 0:
@@ -463,12 +453,7 @@ def oracle(case, o):
 
 
 def guard(case, o):
-    if case.get('k') == 'history':
-        return any(guard(st, so) for st, so in zip(case['steps'], o['steps']))
-    exp = case.get('expect')
-    if exp is None and case.get('ast') is not None:
-        exp = expectation(case['ast'])
-    return bool(exp and exp.get('fn_clash'))
+    return False
 
 
 def nontrivial(case, o):
@@ -587,12 +572,12 @@ CORPUS = [
     ('Y = X if Z > 0 else W', A(['Y'], ['X', 'Z', 'W'], [], [])),
     ('Y = X[ -1 ] + X[+1]', A(['Y'], ['X'], [], [], 1, 1)),
     ('Y = X\n```\nfoo = 1\n```\nZ = Y[-1]', A(['Y', 'Z'], ['X'], [], [], 1, 0)),
-    ('Y = exp + exp(X)', dict(A(['Y'], ['exp', 'X'], [], []), fn_clash=['exp'])),
-    ('Y = exp(X) + exp', dict(A(['Y'], ['X', 'exp'], [], []), fn_clash=['exp'])),
-    ('Y = X + f\nZ = f(X)', dict(A(['Y', 'Z'], ['X', 'f'], [], []), fn_clash=['f'])),
-    ('Y = {a} + a(X)', dict(A(['Y'], ['X'], ['a'], []), fn_clash=['a'])),
-    ('Y = a + a(1)\nZ = {a} + a(1)', dict(R('SymbolError'), fn_clash=['a'])),
-    ('Y = a + a(1)\nZ = <a> * a(2)', dict(R('SymbolError'), fn_clash=['a'])),
+    # a name called as a function and used otherwise: rejected in either order, in one equation or across equations (b45daa1)
+    ('Y = exp + exp(X)', R('SymbolError')), ('Y = exp(X) + exp', R('SymbolError')), ('Y = X + f\nZ = f(X)', R('SymbolError')),
+    ('Y = f(X)\nZ = X + f', R('SymbolError')), ('Y = {a} + a(X)', R('SymbolError')), ('Y = a(X) * <a>', R('SymbolError')),
+    ('Y = a + a(1)\nZ = {a} + a(1)', R('SymbolError')), ('Y = a + a(1)\nZ = <a> * a(2)', R('SymbolError')),
+    ('Y = Y(1)', R('SymbolError')), ('f = f(X) + 1', R('SymbolError')),
+    ('Y = exp(X) + exp(Z) + log(exp(W))\nZ = exp(Y)', A(['Y', 'Z'], ['X', 'W'], [], [])),       # repeated calls: one FUNCTION symbol
     ('{p} = X', R('ParserError')), ('2 = X', R('ParserError')),
 ]
 LATTICE_SCRIPTS = ['Y = X', 'Y = X[-1] + Z[2]', 'Y = X[-3]\nZ = Y[1]', '']
